@@ -655,11 +655,15 @@ func checkCreateEventV3(event PDU, sender spec.UserID, knownRoomVersion KnownRoo
 
 func CreatorsFromCreateEvent(createEvent PDU) (creators []string) {
 	creators = append(creators, string(createEvent.SenderID()))
-	var content CreateContent
-	err := json.Unmarshal(createEvent.Content(), &content)
-	if err != nil {
-		// should not be possible as we already have made the PDU
-		panic("invalid create event content: " + string(createEvent.JSON()))
+	// Only decode the field we need: the rest of the content is controlled by the
+	// room creator and a mistyped unrelated key must not make this fail.
+	var content struct {
+		AdditionalCreators []string `json:"additional_creators"`
+	}
+	if err := json.Unmarshal(createEvent.Content(), &content); err != nil {
+		// The auth rules reject create events whose additional_creators is not a
+		// list of user IDs, so such an event has no additional creators.
+		return creators
 	}
 	creators = append(creators, content.AdditionalCreators...)
 	return creators
